@@ -572,22 +572,28 @@ def build_mpas(am, d, rng):
     # positions as the source gives them, in degrees (independent conversion)
     vpos = [(math.degrees(a), math.degrees(b)) for a, b in zip(ds["lonVertex"].values.tolist(), ds["latVertex"].values.tolist())]
     cpos = [(math.degrees(a), math.degrees(b)) for a, b in zip(ds["lonCell"].values.tolist(), ds["latCell"].values.tolist())]
+    R = 6371229.0
+    xyz_src = {}
     if d["xyz"]:
-        R = 6371229.0
         for nm, pts in (("Vertex", am.xyz), ("Cell", [lonlat_to_xyz(*c) for c in fc])):
             for k, ax in enumerate("xyz"):
                 ds[ax + nm] = xr.DataArray(np.array([p[k] * R for p in pts]), dims=["nVertices" if nm == "Vertex" else "nCells"])
+            xyz_src[nm] = [[p[k] * R for k in range(3)] for p in pts]
     image = {"vOnC": img(vOnC), "nE": [len(f) for f in am.faces], "cOnV": img(cOnV), "aux": {}}
     if d["dual"]:
         ex = Expect(am, faces=cov, pos=cpos)
         ex.n_node = nC
         ex.aux["node_face"] = [list(f) for f in am.faces]          # node (=cell) -> dual faces (=vertices)
         ex.aux["face_coords"] = vpos
+        if xyz_src:
+            ex.aux["node_xyz"], ex.aux["face_xyz"] = xyz_src["Cell"], xyz_src["Vertex"]
     else:
         ex = Expect(am, pos=vpos)
         ex.n_node = nV
         ex.aux["node_face"] = [list(x) for x in cov]
         ex.aux["face_coords"] = cpos
+        if xyz_src:
+            ex.aux["node_xyz"], ex.aux["face_xyz"] = xyz_src["Vertex"], xyz_src["Cell"]
     if d["opt"]:
         vOnE = np.array([[a + 1, b + 1] for a, b in el], dtype=dt)
         cOnE = np.array([[x + 1 for x in r] + [0] * (2 - len(r)) for r in ef], dtype=dt)
@@ -629,9 +635,13 @@ def build_mpas(am, d, rng):
             ex.aux["face_face"] = am.face_faces()
             ex.aux["areas"] = area_c.tolist()
         ex.aux["edge_coords"] = epos
-        ex.aux["edge_node_distances"] = ds["dvEdge"].values.tolist()
-        ex.aux["edge_face_distances"] = ds["dcEdge"].values.tolist()
-    ds.attrs = {"on_a_sphere": "YES", "sphere_radius": 1.0, "mesh_spec": "1.0"}
+        if not d["dual"]:
+            # primal: dvEdge = distance between the edge's two vertices (= nodes), dcEdge between its two cells
+            # (= faces).  On the dual mesh the roles are exchanged; distances are not among the items C01 lists, so
+            # nothing is asserted there.
+            ex.aux["edge_node_distances"] = ds["dvEdge"].values.tolist()
+            ex.aux["edge_face_distances"] = ds["dcEdge"].values.tolist()
+    ds.attrs = {"on_a_sphere": "YES", "sphere_radius": R, "mesh_spec": "1.0"}
     return ds, ex, image
 
 
